@@ -62,6 +62,7 @@ inductive Ev
   | cwret
   | poll (i b : Nat) (snap : List Char)
   | final (i b k : Nat) (rc : Int) (same : Nat)
+  | mask (x : Who) (b same : Nat)   -- the caller's signal mask before/after getaddrinfo_a: a frame condition
   | fin (needSig : Bool)
 
 structure V (ga : Nat → Int) where
@@ -287,6 +288,7 @@ def feed {ga : Nat → Int} (v : V ga) : Ev → R ga
     else if same ≠ 1 then .error s!"item {b}.{k}: ar_result differs from getaddrinfo's answer"
     else if v.finals.contains (b, k) then .error "final read twice"
     else .ok { v with finals := (b, k) :: v.finals }
+  | .mask _ _ _ => .ok v     -- not part of the model (checked by the monitor)
   | .fin needSig => do
     let v ← flush v .w
     let s := v.m.s
